@@ -20,6 +20,22 @@ Theorem C12_example_rejected_outside_write :
 Proof. exact ex_rejected_confined. Qed.
 Print Assumptions C12_example_rejected_outside_write.
 
+(* paths the application's translate function declines are left alone: no engine action of an accepted
+   trace addresses a path with a declined component *)
+Theorem C12_declined_left_alone : forall cfg l r tr m',
+  accept cfg l r tr = inl m' ->
+  forall pre x post s ts, tr = pre ++ x :: post -> o_ev x = EEng s ts ->
+    forall t n, In t ts -> In n t -> ~ In n (declined cfg).
+Proof. exact engine_declined_left_alone. Qed.
+Print Assumptions C12_declined_left_alone.
+
+Theorem C12_example_rejected_declined :
+  accept (ex_cfg None) ex_l0 ex_r0
+    [ {| o_ev := EUser false (Create [1; 3] 7)%N; o_L := ex_l1; o_R := ex_r0 |};
+      {| o_ev := EEng true [[2; 77]%N]; o_L := ex_l1; o_R := ex_r0 ++ [([2; 77]%N, Dir)] |} ] = inr (1%nat, G_DECLINED).
+Proof. exact ex_rejected_declined. Qed.
+Print Assumptions C12_example_rejected_declined.
+
 (* ------------------------------------------------------------------ moves across the root boundary
    (one-sided runs: origin cfg = Some s0, users act on side s0; lemmas in MonitorBoundary.v) *)
 From CS Require Import TreeLookup TreeProofs MonitorBoundary.
